@@ -162,6 +162,75 @@ def main():
     if missing:
         die("parse_request: commands without an arm: %s" % missing)
 
+    # the routing of BinaryHandler::handle_request: request variant -> (handler function, filter)
+    m = re.search(r"pub fn handle_request\(.*?match req \{(.*?)\n        \}\n    \}", handler, re.S)
+    if not m:
+        die("handle_request: match not found")
+    hbody = m.group(1)
+    variant_ids = {n: i + 1 for i, n in enumerate([
+        "Delete", "DeleteQuiet", "Flush", "FlushQuietly", "Get", "GetKey", "GetQuietly", "GetKeyQuietly",
+        "Increment", "IncrementQuiet", "Decrement", "DecrementQuiet", "Noop", "Stats", "Quit", "QuitQuietly",
+        "Set", "SetQuietly", "Add", "Replace", "AddQuietly", "ReplaceQuietly", "Append", "Prepend",
+        "AppendQuietly", "PrependQuietly", "Version", "ItemTooLarge", "NotSupported"])}
+    handler_ids = {"delete": 1, "flush": 2, "get": 3, "increment": 4, "decrement": 5, "noop": 6, "stats": 7, "quit": 8,
+                   "set": 9, "add_replace": 10, "append_prepend": 11, "version": 12, "too_large": 13, "not_supported": 14}
+    arms = re.split(r"\n            (?=binary_codec::BinaryRequest::)", "\n" + hbody)
+    routes = []
+    seen_v = set()
+    for arm in arms:
+        arm = arm.strip()
+        if not arm:
+            continue
+        if "=>" not in arm:
+            die("handle_request: cannot split arm %r" % arm[:60])
+        pat, rhs = arm.split("=>", 1)
+        names = re.findall(r"BinaryRequest::([A-Za-z]+)", pat)
+        if not names:
+            die("handle_request: no variant in %r" % pat[:60])
+        mm = re.search(r"self\.([a-z_]+)\(", rhs)
+        if mm:
+            if mm.group(1) not in handler_ids:
+                die("handle_request: unknown handler %s" % mm.group(1))
+            hid = handler_ids[mm.group(1)]
+        elif "BinaryResponse::Noop(" in rhs:
+            hid = handler_ids["noop"]
+        elif "BinaryResponse::Stats(" in rhs:
+            hid = handler_ids["stats"]
+        elif "BinaryResponse::Quit(" in rhs:
+            hid = handler_ids["quit"]
+        elif "BinaryResponse::Version(" in rhs:
+            hid = handler_ids["version"]
+        elif "CacheError::ValueTooLarge" in rhs:
+            hid = handler_ids["too_large"]
+        elif "CacheError::UnkownCommand" in rhs:
+            hid = handler_ids["not_supported"]
+        else:
+            die("handle_request: cannot classify arm of %s" % names)
+        nq = len(re.findall(r"into_quiet_mutation\(", rhs))
+        ng = len(re.findall(r"into_quiet_get\(", rhs))
+        ns = len(re.findall(r"\bSome\(", rhs))
+        if nq == 1 and ng == 0 and ns == 0:
+            fid = 2
+        elif ng == 1 and nq == 0 and ns == 0:
+            fid = 3
+        elif ns == 1 and nq == 0 and ng == 0:
+            fid = 1
+        else:
+            die("handle_request: cannot classify the filter of %s (Some=%d quiet_mutation=%d quiet_get=%d)" % (names, ns, nq, ng))
+        for n in names:
+            if n not in variant_ids:
+                die("handle_request: unknown request variant %s" % n)
+            if n in seen_v:
+                die("handle_request: variant %s matched twice" % n)
+            seen_v.add(n)
+            routes.append((n, variant_ids[n], hid, fid))
+    missing = [n for n in variant_ids if n not in seen_v]
+    if missing:
+        die("handle_request: variants without an arm: %s" % missing)
+    # BinaryRequest::Stats is never built by the decoder (stat is parsed as a version request)
+    if re.search(r"Some\(\s*BinaryRequest::Stats\(", codec):
+        die("the decoder now builds BinaryRequest::Stats: the model has no such request")
+
     L = []
     A = L.append
     A("(* GENERATED by tools/gen_tables.py from the Rust sources — do not edit. *)")
@@ -200,6 +269,13 @@ def main():
     A("(* MemcacheBinaryCodec::parse_request: which body parser each command is handed to")
     A("   (1 get, 2 append/prepend, 3 set/add/replace, 4 delete, 5 incr/decr, 6 header only, 7 flush,")
     A("   8 'not supported' frame, 0 error); opcodes outside enum Command are errors *)")
+    A("(* BinaryHandler::handle_request: (request variant, handler, filter) per match arm;")
+    A("   variants: " + ", ".join("%d %s" % (v, k) for k, v in variant_ids.items()))
+    A("   handlers: " + ", ".join("%d %s" % (v, k) for k, v in handler_ids.items()))
+    A("   filters: 1 Some(..) (always answered), 2 into_quiet_mutation, 3 into_quiet_get *)")
+    A("Definition handler_routes : list (N * N * N) :=")
+    A("  [" + ";\n   ".join("(%d, %d, %d) (* %s *)" % (vid, hid, fid, n) for n, vid, hid, fid in routes) + "].")
+    A("")
     A("Definition decode_dispatch : list (list N * N) :=")
     A("  [" + ";\n   ".join("([%s], %d)" % ("; ".join("cmd_" + n for n in names), pid) for names, pid in dispatch) + "].")
     A("")
